@@ -125,6 +125,10 @@ structure Final where
   maxIdle : Int
   v4fd : Int
   v6fd : Int
+  /-- `users[0 .. usercount)` as `init_users` leaves the `calloc`ed array (`usercount = users.length`) -/
+  users : List Server.Session
+  /-- the forward ring after `fw_query_init()` -/
+  fw : FwQuery.Fw
 deriving DecidableEq, Repr
 
 structure Result where
@@ -287,7 +291,7 @@ def finalOf (v : Validated) (v4 v6 : Int) : Final :=
   { password := v.password, topdomain := v.topdomain, myIp := v.myIp, netmask := v.netmask, mtu := v.o.mtu,
     checkIp := v.o.checkIp, nsIp := v.nsIp, bindPort := v.o.bindPort, debug := v.o.debug,
     createdUsers := pool.length, pool := pool, bindFd := if v.o.bindEnable then BIND_FD else 0, maxIdle := v.o.maxIdle,
-    v4fd := v4, v6fd := v6 }
+    v4fd := v4, v6fd := v6, users := pool.map Server.Session.zero, fw := FwQuery.init }
 
 /-- from `created_users = init_users(my_ip, netmask)` to the end of `main()` -/
 def startup (env : Env) (v : Validated) (evs : List Ev) : Result :=
@@ -319,5 +323,17 @@ def Final.toConfig (f : Final) : Server.Config :=
   { checkIp := f.checkIp, password := f.password.take 32, myIp := f.myIp, netmask := f.netmask.toNat, topdomain := f.topdomain,
     mtu := f.mtu, nsIp := f.nsIp, bindPort := if f.bindFd = 0 then 0 else f.bindPort.toNat, dest4 := 0, dest6 := 0,
     createdUsers := f.createdUsers }
+
+/-- the configuration of the running process: `toConfig` + the local addresses `recvmsg` reports for the datagrams (in the real process a
+property of each datagram; the session model keeps them in the configuration) -/
+def Final.cfg (f : Final) (dest4 dest6 : Nat) : Server.Config := { f.toConfig with dest4 := dest4, dest6 := dest6 }
+
+/-- The state of the process when `tunnel()` is entered: the globals `main()` has set, `users[]`, the forward ring, the stream `rnd` of
+values `rand()` is going to return (`main()` calls `srand(time(NULL))`: the stream is whatever libc's generator yields for that seed;
+nothing has been drawn from it yet), and the clock.  (`now`: the model keeps `time(NULL)` in the state; every iteration overwrites it
+with the value after `select`, and with all slots inactive the top of the loop does not look at it — `Lemmas/OptTop.lean`,
+`start_clock_irrelevant`.) -/
+def Final.srv (f : Final) (rnd : List Nat) (dest4 dest6 now : Nat) : Server.Srv :=
+  { cfg := f.cfg dest4 dest6, users := f.users, fw := f.fw, rand := rnd, now := now }
 
 end Iodine.Server.Options
